@@ -317,6 +317,37 @@ def check_two_accumulators(acc_, N, runner):
         acc_.violation({"symptom": "iteration-count", "which": "accumulator", "sync": "two-accumulators", "entry_mid_body": False}, w, f"two-accumulator loop N={N}: counts {got} expected {exp_counts}; log {jsonable(x.result.values.get('log'))} expected {jsonable(exp_log)}")
 
 
+def check_two_signal_gate(acc_, N, runner):
+    """The loop gate waits for TWO end-of-iteration signals emitted by two body branches of different length (one step and three
+    steps behind the loop state, so that the slow signal's producer is not yet co-ready when the quick one has fired): every iteration needs both, so the sequential meaning is
+    while True: q = quick(i); r = slow3(slow2(slow1(i))); if not r < N: break; i = inc(i)."""
+    prog = T.prog(
+        [
+            T.fn("inc", ["i"], ["i"], behav={"py": "i + 1"}),
+            T.fn("quick", ["i"], ["q"], emit=["q_done"], behav={"py": "('q', i)"}),
+            T.fn("slow1", ["i"], ["r0"], behav={"py": "('r0', i)"}),
+            T.fn("slow2", ["r0"], ["r1"], behav={"py": "('r1', r0[1])"}),
+            T.fn("slow3", ["r1"], ["r"], emit=["r_done"], behav={"py": "('r', r1[1])"}),
+            # (the gate decides on the SLOW branch's result: fired on a half-finished turn it would read the previous turn's r)
+            T.route("gt", ["i", "r"], ["inc", "END"], wait_for=["q_done", "r_done"], default_open=False, behav={"py": f"'inc' if r[1] < {N} else END"}),
+        ]
+    )
+    p = T.set_async(prog, runner == "async")
+    x = execute(p, {"i": 0}, runner=runner, h=H(), error_handling="continue", max_iterations=200)
+    acc_.evaluations += 1
+    acc_.traces += 1
+    got = _observe(x)
+    w = {"kind": "two-signal-gate", "cfg": [N], "runner": runner, "program": prog}
+    exp_counts = {"inc": N, "quick": N + 1, "slow1": N + 1, "slow2": N + 1, "slow3": N + 1, "gt": N + 1}
+    exp_counts = {k: v for k, v in exp_counts.items() if v}
+    if x.exc is not None or x.result is None or x.result.status.value != "completed":
+        acc_.violation({"symptom": "loop-did-not-complete", "sync": "two-signals"}, w, f"two-signal gate loop N={N}: status {x.status} error={x.exc or getattr(x.result, 'error', None)!r}, counts {got}")
+        return
+    exp_vals = {"i": N, "q": ("q", N), "r0": ("r0", N), "r1": ("r1", N), "r": ("r", N)}
+    if got != exp_counts or dict(x.result.values) != exp_vals:
+        acc_.violation({"symptom": "iteration-count", "which": "gate", "sync": "two-signals", "entry_mid_body": False}, w, f"loop whose gate waits for two signals, N={N} ({runner}): counts {got} expected {exp_counts}; values {jsonable(x.result.values)} expected {jsonable(exp_vals)}")
+
+
 def check_cached_signal_loop(acc_, N, runner):
     """The signal-synchronised loop with every function node cached, run twice on one cache: the warm run must
     iterate exactly like the cold one (a cached emitter still produces its signal)."""
@@ -406,6 +437,8 @@ def run_shard(shard):
                 check_two_accumulators(acc, N, runner)
                 acc.key(("cached-signal-loop", N, runner))
                 check_cached_signal_loop(acc, N, runner)
+                acc.key(("two-signal-gate", N, runner))
+                check_two_signal_gate(acc, N, runner)
     gen, fn = {"det": (_det_cfgs, check_det), "script": (_script_cfgs, check_script), "maxiter": (_maxiter_cfgs, check_maxiter)}[part]
     for i, cfg in enumerate(gen(tier)):
         if i % k != s:
@@ -426,7 +459,9 @@ def coverage_extra(acc, tier, seed):
 def replay(rep):
     acc = Acc()
     cfg = rep["cfg"]
-    if rep["kind"] == "cached-signal-loop":
+    if rep["kind"] == "two-signal-gate":
+        check_two_signal_gate(acc, cfg[0], rep["runner"])
+    elif rep["kind"] == "cached-signal-loop":
         check_cached_signal_loop(acc, cfg[0], rep["runner"])
     elif rep["kind"] == "acc2":
         check_two_accumulators(acc, cfg[0], rep["runner"])
